@@ -35,7 +35,7 @@ EXPLANATION = (
     'member with the documented grouping, the counters added by total_failure_count are exactly those fed by the members of the '
     'folded is_bad set, doit returns non-zero iff total_failure_count() > 0, the label->counter table of summary agrees and every '
     'positive counter is printed.  R5: test_slice returns (int(part 0), int(part 1)) under the documented guards and get_tests '
-    'selects tests[SLICE-1::NUM_SLICES].  The exit status handed from doit()/run()/run_with_args() to sys.exit is drawn from constants in 0..255, never a count.  R7: in an async function that repeats asyncio.wait/wait_for in a loop with a caller-supplied timeout variable (complete_all), that variable is re-assigned inside the loop from a clock-reading expression (necessary for the total wait to stay within the budget; the arithmetic itself is not decided).  R6: get_tests builds the selection by filtering one source at a time (no concatenation), and in the selection generator (tests_from_args) no path leads from a `yield <candidate>` to another one without advancing the single loop over the candidates.  In the predicate get_tests filters with (test_suitable) the exclude_suites of the test setup are consulted only on paths where --suite was seen empty.  R8: the default of -j is determine_worker_count([... MESON_TESTTHREADS ...]); in determine_worker_count the count is overwritten inside the loop over the variable names only on paths where the variable is known to be present; the value that sizes the semaphore is validated positive (a -j parser that only returns positive counts, or a guard / max()). All tables are extracted from a normal form (small helpers and starter closures inlined, single-definition locals and tuple unpackings propagated, walrus / conditional values / list comprehensions desugared, constant lookup tables unrolled, internal calls bound by signature); a finding is reported only when every construct on the judged path was classified.  NOT decided: asyncio interleavings beyond this await protocol; that timeouts kill (including that every test that can time out is started in its own session: the condition under which preexec_fn skips os.setsid() would have to be related to options.interactive through SingleTestRunner.console_mode -> TestRun.console_mode -> the constructor argument, which this pack does not follow) '
+    'selects tests[SLICE-1::NUM_SLICES].  The exit status handed from doit()/run()/run_with_args() to sys.exit is drawn from constants in 0..255, never a count.  R7: in an async function that repeats asyncio.wait/wait_for in a loop with a caller-supplied timeout variable (complete_all), that variable is re-assigned inside the loop from a clock-reading expression (necessary for the total wait to stay within the budget; the arithmetic itself is not decided).  R6: get_tests builds the selection by filtering one source at a time (no concatenation), and in the selection generator (tests_from_args) no path leads from a `yield <candidate>` to another one without advancing the single loop over the candidates.  In the predicate get_tests filters with (test_suitable) the exclude_suites of the test setup are consulted only on paths where --suite was seen empty.  R8: the default of -j is determine_worker_count([... MESON_TESTTHREADS ...]); in determine_worker_count the count is overwritten inside the loop over the variable names only on paths where the variable is known to be present; the value that sizes the semaphore is validated positive (a -j parser that only returns positive counts, or a guard / max()). All tables are extracted from a normal form (small helpers and starter closures inlined, single-definition locals and tuple unpackings propagated, walrus / conditional values / list comprehensions desugared, constant lookup tables unrolled, internal calls bound by signature); a finding is reported only when every construct on the judged path was classified.  NOT decided: asyncio interleavings beyond this await protocol; that timeouts kill (TestSubprocess._kill: which signals are sent to which process or process group on which path, e.g. an early return when the main process has already exited while its group is still alive, is runtime process semantics and a free-form escalation sequence that no clause here fixes; including that every test that can time out is started in its own session: the condition under which preexec_fn skips os.setsid() would have to be related to options.interactive through SingleTestRunner.console_mode -> TestRun.console_mode -> the constructor argument, which this pack does not follow) '
     'process groups; --maxfail timing; the composed end-to-end value of complete() for a concrete run (only the per-method tables '
     'and their chaining); the rendered text of summary(); the partition property of --slice as such (only the offset/stride roles).')
 ASSUMPTIONS = [
@@ -1728,16 +1728,38 @@ FIELDS = ('is_parallel', 'expected_fail', 'expected_exitcode', 'timeout', 'proto
 
 def r3c(ctx: RuleCtx) -> None:
     mod = ctx.repo.module(BACKENDS)
-    fq = 'Backend.create_test_serialisation'
+    entry_q = 'Backend.create_test_serialisation'
+    entry = mod.func(entry_q)
+    builders = [q for q, f in mod.funcs().items() if q.startswith('Backend.') and q.count('.') == 1
+                and any(isinstance(c, ast.Call) and call_name(c) == 'TestSerialisation' for c in walk_no_nested(f))]
+    if len(builders) != 1:
+        raise Undecided(f'{entry_q}: expected one method of Backend that builds TestSerialisation records, found {builders}')
+    fq = builders[0]
     fn = mod.func(fq)
     p0 = [a.arg for a in fn.args.args if a.arg != 'self'][0]
-    rets = [r for r in walk_no_nested(fn) if isinstance(r, ast.Return)]
-    if len(rets) != 1 or not isinstance(rets[0].value, ast.Name):
-        raise Undecided(f'{fq}: expected a single `return <list>`')
-    arr = rets[0].value.id
-    loops = [st for st in fn.body if isinstance(st, ast.For) and any(isinstance(c, ast.Call) and call_name(c) == f'{arr}.append' for c in ast.walk(st))]
+    if fn is not entry:
+        # the records are produced by a helper (list builder or generator): the entry point must hand its tests on and return all of them
+        erets = [r for r in walk_no_nested(entry) if isinstance(r, ast.Return) and r.value is not None]
+        ev = _inline_locals(entry, erets[0].value, calls={fn.name}) if len(erets) == 1 else None
+        inner = ev.args[0] if isinstance(ev, ast.Call) and call_name(ev) in ('list', 'tuple') and len(ev.args) == 1 and not ev.keywords else ev
+        ep0 = [a.arg for a in entry.args.args if a.arg != 'self'][0]
+        if not (isinstance(inner, ast.Call) and call_name(inner) == f'self.{fn.name}' and [norm(a) for a in (_positional(inner, fn) or [])] == [ep0]):
+            raise Undecided(f'{entry_q}: does not simply return the records of {fn.name}({ep0})')
+    is_gen = any(isinstance(n, (ast.Yield, ast.YieldFrom)) for n in walk_no_nested(fn))
+    if is_gen:
+        if any(isinstance(n, ast.YieldFrom) for n in walk_no_nested(fn)):
+            raise Undecided(f'{fq}: `yield from` is outside the idioms of this rule')
+        arr = '<yield>'
+        emits = lambda n: isinstance(n, ast.Yield)   # noqa: E731
+    else:
+        rets = [r for r in walk_no_nested(fn) if isinstance(r, ast.Return)]
+        if len(rets) != 1 or not isinstance(rets[0].value, ast.Name):
+            raise Undecided(f'{fq}: expected a single `return <list>`')
+        arr = rets[0].value.id
+        emits = lambda n: isinstance(n, ast.Call) and call_name(n) == f'{arr}.append'   # noqa: E731
+    loops = [st for st in fn.body if isinstance(st, ast.For) and any(emits(c) for c in ast.walk(st))]
     if len(loops) != 1 or not isinstance(loops[0].target, ast.Name):
-        raise Undecided(f'{fq}: expected one loop appending to {arr}')
+        raise Undecided(f'{fq}: expected one loop that emits the records')
     loop = loops[0]
     tv = loop.target.id
     it_ = loop.iter
@@ -1784,11 +1806,11 @@ def r3c(ctx: RuleCtx) -> None:
                 f'the serialisation loop iterates {short(it_)}: order by priority is {order}; documented: higher priority starts first', it_)
     cfg = CFG(fn)
     head = [n for n in cfg.nodes if n.kind == 'iter' and n.ast is loop]
-    apps = cfg.nodes_with_call(lambda c: call_name(c) == f'{arr}.append')
+    apps = [n_ for n_ in cfg.nodes if n_.expr() is not None and any(emits(x) for x in walk_no_nested(n_.expr()))]
     body_first = [cfg.nodes[b] for b, lab in cfg.succ[head[0].id] if lab == 'iter']
     skip = any(cfg.can_reach(bf, head[0], apps) for bf in body_first if bf not in apps)
-    ctx.require(not skip, 'every iteration of the serialisation loop appends its test', mod, fq, f'{arr}.append on every iteration path',
-                f'an iteration of the serialisation loop can return to the loop head without {arr}.append(...): a test is dropped', loop)
+    ctx.require(not skip, 'every iteration of the serialisation loop emits its test', mod, fq, 'record emitted on every iteration path',
+                f'an iteration of the serialisation loop can return to the loop head without emitting the record ({arr}): a test is dropped', loop)
     ser = mod.cls('TestSerialisation')
     slots = [st.target.id for st in ser.body if isinstance(st, ast.AnnAssign) and isinstance(st.target, ast.Name)]
     builds = [c for c in ast.walk(loop) if isinstance(c, ast.Call) and call_name(c) == 'TestSerialisation']
@@ -2320,6 +2342,32 @@ def _as_store(t: ast.AST) -> ast.AST:
 # R5: slicing
 # ---------------------------------------------------------------------------
 
+def _selection_fn(ctx: RuleCtx, mod: Module) -> T.Tuple[str, T.Any]:
+    """The method of TestHarness that builds the list of tests to run: get_tests, or the helper it returns the result of."""
+    gq = 'TestHarness.get_tests'
+    fn = mod.func(gq)
+
+    def selects(f: T.Any) -> bool:
+        return any(isinstance(st, ast.If) and any(c.endswith('options.slice') for c in chains_in(st.test)) for st in f.body)
+    if selects(fn):
+        return gq, fn
+    cands = []
+    for c in walk_no_nested(fn):
+        if isinstance(c, ast.Call) and isinstance(c.func, ast.Attribute) and attr_chain(c.func.value) == 'self' and not c.args and not c.keywords \
+                and mod.has_func(f'TestHarness.{c.func.attr}') and selects(mod.func(f'TestHarness.{c.func.attr}')):
+            cands.append(c)
+    if len(cands) != 1:
+        raise Undecided(f'{gq}: the selection (--slice step) is neither in get_tests nor in one helper it calls')
+    # get_tests must hand the helper's list on unchanged: every non-empty return is that list (or a name bound to it)
+    holder = {t.id for st in walk_no_nested(fn) if isinstance(st, ast.Assign) and st.value is cands[0] for t in st.targets if isinstance(t, ast.Name)}
+    for r in walk_no_nested(fn):
+        if isinstance(r, ast.Return) and r.value is not None and not (isinstance(r.value, (ast.List, ast.Tuple)) and not r.value.elts):
+            if not (r.value is cands[0] or (isinstance(r.value, ast.Name) and r.value.id in holder)):
+                raise Undecided(f'{gq}: returns {short(r.value)}, not the list selected by {cands[0].func.attr}()')   # type: ignore[union-attr]
+    q = f'TestHarness.{cands[0].func.attr}'   # type: ignore[union-attr]
+    return q, mod.func(q)
+
+
 def r5(ctx: RuleCtx) -> None:
     mod = ctx.repo.module(MTEST)
     # (a) argument parser: "i/n" -> (int(part 0), int(part 1)), accepted iff 0 < i, 0 < n, not n < i
@@ -2365,8 +2413,7 @@ def r5(ctx: RuleCtx) -> None:
     ctx.require(ok, '--slice is parsed by test_slice into options.slice', mod, 'add_arguments', "add_argument('--slice')", '--slice is not parsed by test_slice into options.slice')
 
     # (b) get_tests: tests = tests[i - 1::n] with (i, n) = options.slice
-    gq = 'TestHarness.get_tests'
-    fn = mod.func(gq)
+    gq, fn = _selection_fn(ctx, mod)
     idx = [i for i, st in enumerate(fn.body) if isinstance(st, ast.If) and any(c.endswith('options.slice') for c in chains_in(st.test))]
     if len(idx) != 1:
         raise Undecided(f'{gq}: expected one top-level `if self.options.slice` statement')
@@ -2447,8 +2494,7 @@ def _bind_args(call: ast.Call, params: T.List[str]) -> T.Dict[str, ast.AST]:
 
 def r6(ctx: RuleCtx) -> None:
     mod = ctx.repo.module(MTEST)
-    gq = 'TestHarness.get_tests'
-    fn = mod.func(gq)
+    gq, fn = _selection_fn(ctx, mod)
     last = fn.body[-1]
     if not (isinstance(last, ast.Return) and isinstance(last.value, ast.Name)):
         raise Undecided(f'{gq}: does not end with `return <list of tests>`')
@@ -2786,8 +2832,11 @@ def r7(ctx: RuleCtx) -> None:
             nodes = cfg.node_containing(c)
             if len(nodes) != 1 or not cfg.can_reach(nodes[0], nodes[0]):
                 continue   # not re-issued in a loop
-            if not any(o.startswith('param:') for o in fl.origins(t)):
+            if not any(o.startswith('param:') and o not in ('param:self', 'param:cls') for o in fl.origins(t)):
                 continue   # not a caller-supplied budget
+            if isinstance(t, ast.Name) and any(n_.kind == 'iter' and any(isinstance(x, ast.Name) and x.id == t.id for x in ast.walk(n_.ast.target))   # type: ignore[union-attr]
+                                               and cfg.can_reach(nodes[0], n_) and cfg.can_reach(n_, nodes[0]) for n_ in cfg.nodes):
+                continue   # the loop itself binds a new value to the variable in every iteration (a table of grace periods), nothing is re-used
             n += 1
             if not isinstance(t, ast.Name):
                 raise Undecided(f'{q}: the timeout of {short(c, 60)} is not a plain variable')
